@@ -42,6 +42,7 @@ func runC02(r *an.Run) {
 	// the name lists R8 relies on are slices of the matcher compiler's own list: they stay what
 	// compilation made them only if that list is never re-used for the next change
 	eachChangeOnItsOwn(r, "R9-name-lists-the-memo-consults-are-never-overwritten", true)
+	metavariableBindsCode(r, "R10-a-metavariable-binds-code-not-an-absent-identifier")
 }
 
 // relabel renames the rule of obligations produced by a rule function shared
